@@ -33,6 +33,12 @@ def plan(tier, seed):
     shards = [{"salt": i, "random_plans": 4 if q else 16, "pairs": 3 if q else 30,
              "frag_delay": (i % 4 == 0) if q else True, "long_hangs": (i % 3 == 1) if q else (i % 2 == 0), "extra_delays": [0.8] if q else [0.2, 0.5, 1.0], "n_extra": 2 if q else 4,
              "load": (not q) and i % 6 == 5} for i in range(n)]
+    # one batch with a non-default id column (public constructor argument) ...
+    shards[min(7, n - 1)]["id_col"] = "rid"
+    # ... and batches at the *real* thread-wait budget (2 s) in which the first jobs of the batch all time out, so
+    # that more than 10 s pass before any search has produced a result (code that only runs in slow batches)
+    for i in range(1 if q else 3):
+        shards.append({"salt": 100 + i, "real_budget": True, "load": False})
     for sh in shards:
         if sh["load"]:
             sh["exclusive"] = True  # burner processes must not disturb the timing of the other shards
@@ -175,8 +181,14 @@ def run_plan(b, inj, batch, fplan, base, mcs_ids, res, tag, base_dt=None, confir
 def work(shard, res, tier, seed):
     import warnings
     warnings.filterwarnings("ignore")
+    global BUDGET
     rng = common.rng(seed, "C11w", shard.get("salt"))
-    b, _ = rowlib.balancer(0, 1, trace=False)
+    kw = {"id_col": shard["id_col"]} if shard.get("id_col") else {}
+    b, _ = rowlib.balancer(0, 1, trace=False, **kw)
+    if shard.get("id_col"):
+        res.count("batches_with_non_default_id_col")
+    if shard.get("real_budget"):
+        BUDGET = 2.0
     burners = []
     if "replay" in shard:
         v = shard["replay"]
@@ -185,6 +197,7 @@ def work(shard, res, tier, seed):
         batch = choose_batch(rng, b, res)
         plans = None
     inj = Injector(budget=BUDGET)
+    inj.id_key = shard.get("id_col") or "id"
     inj.install()
     try:
         inj.set_plan({})
@@ -201,6 +214,16 @@ def work(shard, res, tier, seed):
         mcs_ids = sorted({j[0] for j in jobs})
         res.count("search_jobs_in_batches", len(jobs))
         res.count("fragment_jobs_in_batches", len(frag_ids))
+        if plans is None and shard.get("real_budget"):
+            keys = ["%s/%d" % j for j in jobs]
+            by_r = sorted({k.split("/")[0] for k in keys}, key=int)
+            # job order of ensemble_mcs: condition-major -> the first six jobs are the first condition of the first
+            # reactions; all jobs of the first two reactions as a second plan
+            first_cond = sorted(keys, key=lambda k: (int(k.split("/")[1]), int(k.split("/")[0])))[:6]
+            plans = [("leading_timeouts_real_budget", {"fit": {k: ["delay", 0.05] for k in first_cond}}),
+                     ("first_reactions_all_conditions_real_budget",
+                      {"fit": {k: ["delay", 0.05] for k in keys if k.split("/")[0] in by_r[:2]}})]
+            res.count("real_budget_plans", len(plans))
         if plans is None:
             plans = build_plans(rng, jobs, frag_ids, shard)
             if shard.get("load"):
@@ -270,7 +293,8 @@ def build_plans(rng, jobs, frag_ids, shard):
 
 def conclude_args(res, tier, seed):
     return {"need": {"plans_run": 150, "affected_rows_judged": 150, "unaffected_rows_compared": 500,
-                     "timeouts_observed": 30, "zombie_line_delays_observed": 10, "clean_reruns_after_hangs": 2},
+                     "timeouts_observed": 30, "zombie_line_delays_observed": 10, "clean_reruns_after_hangs": 2,
+                     "batches_with_non_default_id_col": 1, "real_budget_plans": 2},
             "min_cases": 100,
             "extra": {"exhaustive_subspace": "per batch: every single (reaction, condition) search job x {delay, raise}, "
                       "every reaction's three conditions together, every fragment-analysis job x raise are enumerated; "
